@@ -5,6 +5,7 @@ import (
 	"fmt"
 	"math/rand/v2"
 	"strings"
+	"sync"
 	"sync/atomic"
 
 	json "github.com/go-json-experiment/json"
@@ -18,20 +19,33 @@ func opts(o ...O) []O { return o }
 
 // ---- shared, immutable inputs (built once; concurrent calls only read them) -----------------
 
+func once[T any](f func() T) func() T { return sync.OnceValue(f) }
+
+// lz adapts a lazily built shared input to the `func() any` the call constructors take.
+func lz[T any](f func() T) func() any { return func() any { return f() } }
+
 var (
-	bigString   = strings.Repeat("The quick brown fox <jumps> over the lazy dog & \"friends\" \u2028 ", 1<<20/60+1) // ≈1 MiB
-	wideInts    = func() []int { s := make([]int, 150_000); for i := range s { s[i] = i*7919 - 500_000 }; return s }()
-	wideStrings = func() []string {
+	bigString = once(func() string {
+		return strings.Repeat("The quick brown fox <jumps> over the lazy dog & \"friends\" \u2028 ", 1<<20/60+1) // ≈1 MiB
+	})
+	wideInts = once(func() []int {
+		s := make([]int, 150_000)
+		for i := range s {
+			s[i] = i*7919 - 500_000
+		}
+		return s
+	})
+	wideStrings = once(func() []string {
 		s := make([]string, 40_000)
 		for i := range s {
 			s[i] = fmt.Sprintf("element-%06d-%s", i, strings.Repeat("x", i%40))
 		}
 		return s
-	}()
-	bigStringText  = mustMarshal(bigString)
-	wideIntsText   = mustMarshal(wideInts)
-	wideStringText = mustMarshal(wideStrings)
-	bigObjectText  = func() []byte {
+	})
+	bigStringText  = once(func() []byte { return mustMarshal(bigString()) })
+	wideIntsText   = once(func() []byte { return mustMarshal(wideInts()) })
+	wideStringText = once(func() []byte { return mustMarshal(wideStrings()) })
+	bigObjectText  = once(func() []byte {
 		var b bytes.Buffer
 		b.WriteString("{")
 		for i := 0; i < 10_000; i++ {
@@ -42,29 +56,31 @@ var (
 		}
 		b.WriteString("}")
 		return b.Bytes()
-	}()
+	})
+	bigObjectTruncated = once(func() []byte { t := bigObjectText(); return t[:len(t)-7] })
 
-	deepSliceOK    = deepSlice(1500, "leaf")
-	deepSliceLeaf  = deepSlice(1300, &Leaf{"shared-leaf"})
-	deepMapLeaf    = deepMap(1200, &Leaf{"shared-map-leaf"})
-	deepListOK     = deepList(1200)
-	deepSliceMax   = deepSlice(10_001, 1)
-	deepSliceLimit = deepSlice(9_999, 1) // value at depth 10000
-	cycSlice       = func() any { s := make([]any, 1); s[0] = s; return s }()
-	cycMap         = func() any { m := map[string]any{}; m["self"] = m; return m }()
-	cycList        = func() any { n := &Node{V: 1}; n.Next = &Node{V: 2, Next: n}; return n }()
-	cycMixed       = func() any {
+	deepSliceOK    = once(func() any { return deepSlice(1500, "leaf") })
+	deepSliceLeaf  = once(func() any { return deepSlice(1300, &Leaf{"shared-leaf"}) })
+	deepMapLeaf    = once(func() any { return deepMap(1200, &Leaf{"shared-map-leaf"}) })
+	deepListOK     = once(func() any { return deepList(1200) })
+	deepSliceMax   = once(func() any { return deepSlice(10_001, 1) })
+	deepSliceLimit = once(func() any { return deepSlice(9_999, 1) }) // value at depth 10000
+	cycSlice       = once(func() any { s := make([]any, 1); s[0] = s; return s })
+	cycMap         = once(func() any { m := map[string]any{}; m["self"] = m; return m })
+	cycList        = once(func() any { n := &Node{V: 1}; n.Next = &Node{V: 2, Next: n}; return n })
+	cycMixed       = once(func() any {
 		m := map[string]any{}
 		s := []any{m}
 		m["s"] = s
 		return &struct{ Root any }{s}
-	}()
-	deepArrayText    = []byte(strings.Repeat("[", 1100) + strings.Repeat("]", 1100))
-	deepObjectText   = []byte(strings.Repeat(`{"k":`, 1200) + "null" + strings.Repeat("}", 1200))
-	depth10000Text   = []byte(strings.Repeat("[", 10_000) + strings.Repeat("]", 10_000))
-	depth10001Text   = []byte(strings.Repeat("[", 10_001) + strings.Repeat("]", 10_001))
-	internCollideDoc = internDoc()
-	internManyDoc    = internMany()
+	})
+	deepArrayText    = once(func() []byte { return []byte(strings.Repeat("[", 1100) + strings.Repeat("]", 1100)) })
+	deepObjectText   = once(func() []byte { return []byte(strings.Repeat(`{"k":`, 1200) + "null" + strings.Repeat("}", 1200)) })
+	depth10000Text   = once(func() []byte { return []byte(strings.Repeat("[", 10_000) + strings.Repeat("]", 10_000)) })
+	depth10001Text   = once(func() []byte { return []byte(strings.Repeat("[", 10_001) + strings.Repeat("]", 10_001)) })
+	internCollideDoc = once(internDoc)
+	internManyDoc    = once(internMany)
+	manyMembersText  = once(func() []byte { return manyMembers(1500) })
 )
 
 func mustMarshal(v any) []byte {
@@ -210,9 +226,9 @@ func marshalWriteCall(name, kind string, wkind, failAt int, v func() any, o ...O
 	}}
 }
 
-func unmarshalCall(name, kind string, text []byte, mk func() any, o ...O) Call {
+func unmarshalCall(name, kind string, text any, mk func() any, o ...O) Call {
 	return Call{Name: name, Kind: kind, Run: func() Out {
-		in := bytes.Clone(text)
+		in := bytes.Clone(textOf(text))
 		target := mk()
 		res := catch(func() string {
 			err := json.Unmarshal(in, target, o...)
@@ -222,9 +238,9 @@ func unmarshalCall(name, kind string, text []byte, mk func() any, o ...O) Call {
 	}}
 }
 
-func unmarshalReadCall(name, kind string, text []byte, chunk, failAt int, mk func() any, o ...O) Call {
+func unmarshalReadCall(name, kind string, text any, chunk, failAt int, mk func() any, o ...O) Call {
 	return Call{Name: name, Kind: kind, Run: func() Out {
-		in := bytes.Clone(text)
+		in := bytes.Clone(textOf(text))
 		target := mk()
 		res := catch(func() string {
 			var err error
@@ -239,6 +255,17 @@ func unmarshalReadCall(name, kind string, text []byte, chunk, failAt int, mk fun
 	}}
 }
 
+// textOf resolves an input text given literally or as a lazily built shared input.
+func textOf(t any) []byte {
+	switch x := t.(type) {
+	case []byte:
+		return x
+	case func() []byte:
+		return x()
+	}
+	panic("bad text")
+}
+
 func newT[T any]() func() any { return func() any { return new(T) } }
 
 type fmtOp int
@@ -251,8 +278,9 @@ const (
 	fAppend
 )
 
-func formatCall(name string, op fmtOp, text []byte, o ...O) Call {
+func formatCall(name string, op fmtOp, textSrc any, o ...O) Call {
 	return Call{Name: name, Kind: "format", Run: func() Out {
+		text := textOf(textSrc)
 		src := bytes.Clone(text)
 		v := jsontext.Value(bytes.Clone(text))
 		var out []byte
@@ -402,9 +430,9 @@ func Build() []Call {
 	add(
 		marshalWriteCall("marshalwrite/buffer", "marshal", wBuffer, 0, func() any { return basicValue() }),
 		marshalWriteCall("marshalwrite/plain-indent", "marshal", wPlain, 0, func() any { return basicValue() }, jsontext.WithIndent("    ")),
-		marshalWriteCall("marshalwrite/io-fault-early", "marshal", wFail, 5, func() any { return wideStrings[:400] }),
-		marshalWriteCall("marshalwrite/io-fault-late", "marshal", wFail, 9000, func() any { return wideStrings[:400] }),
-		marshalWriteCall("marshalwrite/error-after-flush", "marshal", wPlain, 0, fixed([]any{wideStrings[:500], make(chan int)})),
+		marshalWriteCall("marshalwrite/io-fault-early", "marshal", wFail, 5, func() any { return wideStrings()[:400] }),
+		marshalWriteCall("marshalwrite/io-fault-late", "marshal", wFail, 9000, func() any { return wideStrings()[:400] }),
+		marshalWriteCall("marshalwrite/error-after-flush", "marshal", wPlain, 0, func() any { return []any{wideStrings()[:500], make(chan int)} }),
 	)
 	add(Call{Name: "marshalencode/stream-in-open-array", Kind: "coder", Run: func() Out {
 		bb := new(bytes.Buffer)
@@ -449,7 +477,7 @@ func Build() []Call {
 	add(Call{Name: "user/marshalwrite-half-panic-plain", Kind: "user", Run: func() Out {
 		w := &plainWriter{}
 		res := catch(func() string {
-			err := json.MarshalWrite(w, []any{wideStrings[:300], ToFrom{M: MHalfPanic}})
+			err := json.MarshalWrite(w, []any{wideStrings()[:300], ToFrom{M: MHalfPanic}})
 			return errStr(err)
 		})
 		// the amount flushed before the panic depends on pooled buffer capacity: not part of the result
@@ -458,19 +486,19 @@ func Build() []Call {
 
 	// ---- large documents (grow every pooled buffer beyond its keep limit)
 	add(
-		withHeavy(marshalCall("big/marshal-1MiB-string", "big", false, fixed(bigString))),
-		withHeavy(marshalCall("big/marshal-1MiB-string-html", "big", false, fixed(bigString), jsontext.EscapeForHTML(true), jsontext.EscapeForJS(true))),
-		withHeavy(marshalCall("big/marshal-wide-ints", "big", false, fixed(wideInts))),
-		withHeavy(marshalCall("big/marshal-wide-strings-indent", "big", false, fixed(wideStrings), jsontext.WithIndent("  "))),
-		withHeavy(marshalWriteCall("big/marshalwrite-plain-wide-strings", "big", wPlain, 0, fixed(wideStrings))),
-		withHeavy(marshalWriteCall("big/marshalwrite-buffer-1MiB-string", "big", wBuffer, 0, fixed(bigString))),
-		withHeavy(marshalCall("big/marshal-then-error-at-end", "big", false, fixed([]any{wideStrings, make(chan int)}))),
-		withHeavy(marshalCall("big/marshal-then-panic-at-end", "big", false, fixed([]any{wideStrings, ByMethod{M: MPanic}}))),
+		withHeavy(marshalCall("big/marshal-1MiB-string", "big", false, lz(bigString))),
+		withHeavy(marshalCall("big/marshal-1MiB-string-html", "big", false, lz(bigString), jsontext.EscapeForHTML(true), jsontext.EscapeForJS(true))),
+		withHeavy(marshalCall("big/marshal-wide-ints", "big", false, lz(wideInts))),
+		withHeavy(marshalCall("big/marshal-wide-strings-indent", "big", false, lz(wideStrings), jsontext.WithIndent("  "))),
+		withHeavy(marshalWriteCall("big/marshalwrite-plain-wide-strings", "big", wPlain, 0, lz(wideStrings))),
+		withHeavy(marshalWriteCall("big/marshalwrite-buffer-1MiB-string", "big", wBuffer, 0, lz(bigString))),
+		withHeavy(marshalCall("big/marshal-then-error-at-end", "big", false, func() any { return []any{wideStrings(), make(chan int)} })),
+		withHeavy(marshalCall("big/marshal-then-panic-at-end", "big", false, func() any { return []any{wideStrings(), ByMethod{M: MPanic}} })),
 		withHeavy(unmarshalCall("big/unmarshal-1MiB-string-any", "big", bigStringText, newT[any]())),
 		withHeavy(unmarshalCall("big/unmarshal-wide-ints", "big", wideIntsText, newT[[]int]())),
 		withHeavy(unmarshalCall("big/unmarshal-wide-strings-any", "big", wideStringText, newT[any]())),
 		withHeavy(unmarshalCall("big/unmarshal-big-object-map", "big", bigObjectText, newT[map[string]Inner2]())),
-		withHeavy(unmarshalCall("big/unmarshal-big-object-truncated", "big", bigObjectText[:len(bigObjectText)-7], newT[any]())),
+		withHeavy(unmarshalCall("big/unmarshal-big-object-truncated", "big", bigObjectTruncated, newT[any]())),
 		withHeavy(unmarshalReadCall("big/unmarshalread-chunked-wide-strings", "big", wideStringText, 4096, -1, newT[[]string]())),
 		withHeavy(unmarshalReadCall("big/unmarshalread-buffer-big-object", "big", bigObjectText, 0, -1, newT[jsontext.Value]())),
 		withHeavy(unmarshalReadCall("big/unmarshalread-io-fault-late", "big", wideStringText, 8192, 900_000, newT[any]())),
@@ -481,21 +509,21 @@ func Build() []Call {
 
 	// ---- deep values: cycle tracking active (depth > 1000), depth limit, cycles
 	add(
-		marshalCall("deep/slice-1500", "deep", false, fixed(deepSliceOK)),
-		marshalCall("deep/slice-1300-shared-leaf-ok", "deep", false, fixed(deepSliceLeaf)),
-		marshalCall("deep/slice-1300-shared-leaf-panic", "deep", false, fixed(deepSliceLeaf), jsontext.EscapeForHTML(true)),
-		marshalCall("deep/slice-1300-shared-leaf-error", "deep", false, fixed(deepSliceLeaf), jsontext.EscapeForJS(true)),
-		marshalCall("deep/map-1200-shared-leaf-ok", "deep", false, fixed(deepMapLeaf)),
-		marshalCall("deep/map-1200-shared-leaf-panic", "deep", false, fixed(deepMapLeaf), jsontext.EscapeForHTML(true)),
-		marshalCall("deep/map-1200-shared-leaf-error", "deep", false, fixed(deepMapLeaf), jsontext.EscapeForJS(true), json.Deterministic(true)),
-		marshalCall("deep/list-1200", "deep", false, fixed(deepListOK)),
-		marshalWriteCall("deep/list-1200-write-fault", "deep", wFail, 12_000, fixed(deepListOK)),
-		withHeavy(marshalCall("deep/slice-10001-max-depth", "deep", false, fixed(deepSliceMax))),
-		withHeavy(marshalCall("deep/slice-10000-ok", "deep", false, fixed(deepSliceLimit))),
-		marshalCall("cycle/slice", "cycle", false, fixed(cycSlice)),
-		marshalCall("cycle/map", "cycle", false, fixed(cycMap)),
-		marshalCall("cycle/list", "cycle", false, fixed(cycList)),
-		marshalCall("cycle/mixed-v1", "cycle", false, fixed(cycMixed), v1),
+		marshalCall("deep/slice-1500", "deep", false, lz(deepSliceOK)),
+		marshalCall("deep/slice-1300-shared-leaf-ok", "deep", false, lz(deepSliceLeaf)),
+		marshalCall("deep/slice-1300-shared-leaf-panic", "deep", false, lz(deepSliceLeaf), jsontext.EscapeForHTML(true)),
+		marshalCall("deep/slice-1300-shared-leaf-error", "deep", false, lz(deepSliceLeaf), jsontext.EscapeForJS(true)),
+		marshalCall("deep/map-1200-shared-leaf-ok", "deep", false, lz(deepMapLeaf)),
+		marshalCall("deep/map-1200-shared-leaf-panic", "deep", false, lz(deepMapLeaf), jsontext.EscapeForHTML(true)),
+		marshalCall("deep/map-1200-shared-leaf-error", "deep", false, lz(deepMapLeaf), jsontext.EscapeForJS(true), json.Deterministic(true)),
+		marshalCall("deep/list-1200", "deep", false, lz(deepListOK)),
+		marshalWriteCall("deep/list-1200-write-fault", "deep", wFail, 12_000, lz(deepListOK)),
+		withHeavy(marshalCall("deep/slice-10001-max-depth", "deep", false, lz(deepSliceMax))),
+		withHeavy(marshalCall("deep/slice-10000-ok", "deep", false, lz(deepSliceLimit))),
+		marshalCall("cycle/slice", "cycle", false, lz(cycSlice)),
+		marshalCall("cycle/map", "cycle", false, lz(cycMap)),
+		marshalCall("cycle/list", "cycle", false, lz(cycList)),
+		marshalCall("cycle/mixed-v1", "cycle", false, lz(cycMixed), v1),
 		unmarshalCall("deep/unmarshal-array-1100", "deep", deepArrayText, newT[any]()),
 		unmarshalCall("deep/unmarshal-object-1200", "deep", deepObjectText, newT[map[string]any]()),
 		withHeavy(unmarshalCall("deep/unmarshal-depth-10000", "deep", depth10000Text, newT[any]())),
@@ -623,7 +651,7 @@ func Build() []Call {
 		formatCall("format/dup-allowed", fCompact, []byte(`{"a":1, "a":2}`), jsontext.AllowDuplicateNames(true)),
 		formatCall("format/error-utf8", fFormat, []byte("[\"\xff\"]")),
 		formatCall("format/error-trailing", fAppend, []byte(`[] []`)),
-		formatCall("format/canonicalize-many-members", fCanon, manyMembers(1500)),
+		formatCall("format/canonicalize-many-members", fCanon, manyMembersText),
 	)
 
 	// ---- token-level coder scripts
@@ -683,23 +711,23 @@ type SeenProbe struct {
 func SeenProbes() []SeenProbe {
 	v1 := jsonv1.DefaultOptionsV1()
 	return []SeenProbe{
-		{"deep slice ok", deepSliceOK, nil},
-		{"deep slice, leaf ok", deepSliceLeaf, nil},
-		{"deep slice, leaf panics", deepSliceLeaf, opts(jsontext.EscapeForHTML(true))},
-		{"deep slice, leaf returns error", deepSliceLeaf, opts(jsontext.EscapeForJS(true))},
-		{"deep map, leaf ok", deepMapLeaf, nil},
-		{"deep map, leaf panics", deepMapLeaf, opts(jsontext.EscapeForHTML(true))},
-		{"deep map, leaf returns error", deepMapLeaf, opts(jsontext.EscapeForJS(true), json.Deterministic(true))},
-		{"deep list ok", deepListOK, nil},
-		{"deep slice beyond the depth limit", deepSliceMax, nil},
-		{"cyclic slice", cycSlice, nil},
-		{"cyclic map", cycMap, nil},
-		{"cyclic list", cycList, nil},
-		{"cyclic mixed, v1", cycMixed, opts(v1)},
+		{"deep slice ok", deepSliceOK(), nil},
+		{"deep slice, leaf ok", deepSliceLeaf(), nil},
+		{"deep slice, leaf panics", deepSliceLeaf(), opts(jsontext.EscapeForHTML(true))},
+		{"deep slice, leaf returns error", deepSliceLeaf(), opts(jsontext.EscapeForJS(true))},
+		{"deep map, leaf ok", deepMapLeaf(), nil},
+		{"deep map, leaf panics", deepMapLeaf(), opts(jsontext.EscapeForHTML(true))},
+		{"deep map, leaf returns error", deepMapLeaf(), opts(jsontext.EscapeForJS(true), json.Deterministic(true))},
+		{"deep list ok", deepListOK(), nil},
+		{"deep slice beyond the depth limit", deepSliceMax(), nil},
+		{"cyclic slice", cycSlice(), nil},
+		{"cyclic map", cycMap(), nil},
+		{"cyclic list", cycList(), nil},
+		{"cyclic mixed, v1", cycMixed(), opts(v1)},
 		{"deep slice, unsupported leaf", deepSlice(1100, make(chan int)), nil},
 		{"deep map, NaN leaf", deepMap(1100, nan()), nil},
 		{"deep slice, MarshalJSONTo half then panic", deepSlice(1100, ToFrom{M: MHalfPanic}), nil},
 		{"deep slice, MarshalJSON invalid", deepSlice(1100, ByMethod{M: MInvalid}), nil},
-		{"deep slice v1", deepSliceOK, opts(v1)},
+		{"deep slice v1", deepSliceOK(), opts(v1)},
 	}
 }
